@@ -1009,7 +1009,7 @@ impl Component for Sel {
         let t0: u64 = if k.wild && rng.chance(1, 6) {
             *rng.pick(&[0u64, 1, 40, 2500, 1 << 63, u64::MAX - 200_000])
         } else {
-            1_000_000 + rng.below(100_000)
+            rng.time_base(1_000_000, 100_000)
         };
         let mut ops = vec![format!("new {n} {t0}")];
         let pick_last = |rng: &mut Rng| -> String {
